@@ -38,6 +38,11 @@ class PageByStrategy(PaginationStrategy):
             removed_column_indices=context.removed_column_indices,
             additional_rows_per_page=context.additional_rows_per_page,
             new_page=context.rtf_body.new_page,
+            # With new_page=True and pageby_row="column" the group stays a table
+            # column: no spanning heading row is rendered, so none is budgeted.
+            pageby_headers_rendered=not (
+                context.rtf_body.new_page and context.rtf_body.pageby_row == "column"
+            ),
         )
 
         pages = []
